@@ -841,6 +841,12 @@ class SR:
         def facts(ctx, v, arg):
             ctx.solver.add(v > 0)
             ctx.positive.add(v.get_id())
+            if ctx.opts.get('exp_monotone'):
+                # exp is strictly increasing: order (and equality) of two applications follows that of their arguments
+                for (_rf0, a0, r0) in ctx.fnapps.get('exp', []):
+                    if a0._t is not None:
+                        ctx.solver.add((arg.t > a0.t) == (v > r0.t))
+                        ctx.solver.add((arg.t == a0.t) == (v == r0.t))
             # exp(a)*exp(-a) = 1 for syntactically opposite arguments already seen
             for (rf0, a0, r0) in ctx.fnapps.get('exp', []):
                 try:
